@@ -27,6 +27,12 @@ impl BeneficiaryReadVersion {
     pub(crate) fn latest_dependency(&self) -> Option<TxId> {
         self.origins.first().map(|version| version.txid)
     }
+
+    /// Contributing `(txid, incarnation)` versions, newest first.
+    #[cfg(feature = "verif")]
+    pub(crate) fn verif_origins(&self) -> Vec<(usize, usize)> {
+        self.origins.iter().map(|version| (version.txid, version.incarnation)).collect()
+    }
 }
 
 /// An exact beneficiary account read and the versions from which it was reconstructed.
